@@ -19,7 +19,7 @@ pub struct Case {
 
 pub fn tree_params_strategy(k: usize, in_dim: usize, out_dim: usize, max_depth: u32) -> impl Strategy<Value = TreeParams> {
     (
-        prop_oneof![1 => Just(0u32), 9 => 1..=max_depth],
+        prop_oneof![2 => Just(0u32), 17 => 1..=max_depth, 1 => (max_depth + 1)..=(max_depth + 2)],
         prop_oneof![1 => Just(100u32), 1 => Just(80u32)],
         prop_oneof![1 => Just(20u32), 1 => Just(70u32)],
     )
@@ -28,7 +28,7 @@ pub fn tree_params_strategy(k: usize, in_dim: usize, out_dim: usize, max_depth: 
 
 fn strategy(tier: Tier) -> BoxedStrategy<Case> {
     let maxd = tier.pick(3u32, 4u32);
-    (any::<bool>(), 1usize..=3, 1usize..=3, 1usize..=3, 1usize..=3)
+    (any::<bool>(), sized(3, 5), sized(3, 5), sized(3, 4), 1usize..=3)
         .prop_flat_map(move |(k4, n, m, p, q)| {
             let k = if k4 { 4 } else { 2 };
             (
